@@ -376,9 +376,15 @@ def split_define(arg):
 
 
 def ref_read(resources, main_url, env=None, defs=None):
-    """Flatten a load into reading-order events.
+    """Flatten a load into reading-order events: -> (events, defs).  See ref_read_iter."""
+    defs = {} if defs is None else defs
+    return list(ref_read_iter(resources, main_url, env, defs)), defs
 
-    resources: url -> text.  Returns (events, defs) where events are
+
+def ref_read_iter(resources, main_url, env=None, defs=None):
+    """Generator of reading-order events (so that a consumer sees problems in reading order).
+
+    resources: url -> text.  Events:
       ("open", type, name, lineno, url, is_empty) ("close", type, lineno, url)
       ("key", key, value, lineno, url) ("import", package, lineno, url)
       ("define", name, value, lineno, url)
@@ -386,8 +392,6 @@ def ref_read(resources, main_url, env=None, defs=None):
     """
     env = env or {}
     defs = {} if defs is None else defs
-    events = []
-    depth = [0]
     active = []
 
     def subst(text, lineno, url):
@@ -415,9 +419,9 @@ def ref_read(resources, main_url, env=None, defs=None):
             if kind in ("blank", "comment"):
                 continue
             if kind == "open":
-                events.append(("open", ev[1], ev[2], lineno, url, ev[3]))
+                yield ("open", ev[1], ev[2], lineno, url, ev[3])
                 if ev[3]:
-                    events.append(("close", ev[1], lineno, url))
+                    yield ("close", ev[1], lineno, url)
                 else:
                     stack.append(ev[1])
             elif kind == "close":
@@ -425,12 +429,12 @@ def ref_read(resources, main_url, env=None, defs=None):
                     raise Reject("nesting", lineno, url, "unexpected section end")
                 if stack.pop() != ev[1]:
                     raise Reject("nesting", lineno, url, "unbalanced section end")
-                events.append(("close", ev[1], lineno, url))
+                yield ("close", ev[1], lineno, url)
             elif kind == "key":
                 value = ev[2]
                 if value != "":
                     value = subst(value, lineno, url)
-                events.append(("key", ev[1], value, lineno, url))
+                yield ("key", ev[1], value, lineno, url)
             elif kind == "define":
                 name, rawv = split_define(ev[1])
                 n = name.lower()
@@ -442,19 +446,18 @@ def ref_read(resources, main_url, env=None, defs=None):
                 if n in defs and defs[n] != v:
                     raise Reject("define-redefine", lineno, url, n)
                 defs[n] = v
-                events.append(("define", n, v, lineno, url))
+                yield ("define", n, v, lineno, url)
             elif kind == "import":
-                events.append(("import", subst(strip_ws(ev[1]), lineno, url), lineno, url))
+                yield ("import", subst(strip_ws(ev[1]), lineno, url), lineno, url)
             elif kind == "include":
                 target = url_join(url, subst(strip_ws(ev[1]), lineno, url))
                 if "#" in target:
                     raise Reject("include-fragment", lineno, url, target)
                 if target not in resources:
                     raise Reject("include-missing", lineno, url, target)
-                read(target)
+                yield from read(target)
         if stack:
             raise Reject("nesting", lineno, url, "unclosed sections")
         active.pop()
 
-    read(main_url)
-    return events, defs
+    yield from read(main_url)
